@@ -304,7 +304,16 @@ func (x *Exec) binop(fr *Frame, st *State, op token.Token, a, b string, ta, tb, 
 	switch op {
 	case token.EQL, token.NEQ:
 		var t string
-		if isFloatT(ta) {
+		if _, isSl := ta.Underlying().(*types.Slice); isSl {
+			// slices compare only against nil: the block pointer decides
+			other := b
+			if a == "(mk-slice 0 0 0 0)" {
+				other = b
+			} else {
+				other = a
+			}
+			t = fmt.Sprintf("(= (s-arr %s) 0)", other)
+		} else if isFloatT(ta) {
 			vc.uf("feq", []string{"Int", "Int"}, "Bool")
 			t = fmt.Sprintf("(feq %s %s)", a, b)
 		} else {
